@@ -3,7 +3,7 @@
 //! Two explicit-state searches (DESIGN.md §4 C15).
 //!
 //! (a) **Edit transition relation**, in-process through hook H3. A state is a document
-//!     text (every text of <= n symbols over {a, é, €, 😉, LF, CRLF}); a transition is one
+//!     text (every text of <= n symbols over {a, é, €, 😉, LF, CRLF, U+FEFF}); a transition is one
 //!     `didChange` handed to the real `Workspace::change`: a range edit for every pair of
 //!     positions start <= end (line 0..=lines+1, character 0..=maxcol+2, i.e. including
 //!     positions past the end of a line and past the end of the text) with every
@@ -1353,11 +1353,15 @@ fn phase_b(d: usize, disks: &[usize], gaps: Gaps) -> Phase {
     )
 }
 
+/// The text alphabet of part (a): the common one plus a byte order mark (a character editors
+/// keep in the buffer and count as one UTF-16 unit).
+const SYMBOLS15: [&str; 7] = ["a", "\u{e9}", "\u{20ac}", "\u{1F609}", "\n", "\r\n", "\u{feff}"];
+
 impl C15 {
     fn run_a(&self, phase: &Phase, sink: &mut Sink) {
         let n = phase.param["n"].as_u64().unwrap() as usize;
         let batch = phase.param["batch"].as_bool().unwrap_or(false);
-        let total = 6u64.pow(n as u32);
+        let total = (SYMBOLS15.len() as u64).pow(n as u32);
         let mut idx = sink.shard;
         if let Some(i) = sink.single() {
             idx = i;
@@ -1366,7 +1370,7 @@ impl C15 {
             if sink.expired() {
                 break;
             }
-            let text = text_of(n, idx, &SYMBOLS);
+            let text = text_of(n, idx, &SYMBOLS15);
             sink.visit(
                 idx,
                 || json!({"part": "a", "text": text, "batch": batch}),
@@ -1570,7 +1574,7 @@ impl Engine for C15 {
         }
     }
     fn rule(&self) -> String {
-        "(a) every text of <= n symbols over {a, é, €, 😉, LF, CRLF} is a state; from each, through the real Workspace::open + Workspace::change (hook H3): a range edit for every pair of positions start <= end of the grid line 0..=lines+1 x character 0..=maxcol+2 (past end of line / text included) with every replacement of {\"\", b, é, LF, 😉CRLF}, 4 full-text changes, and for the smaller texts every two-change batch (first change: every range x {\"\", é, 😉CRLF}; second: every range of the intermediate text, replacement b) plus full-then-range and range-then-full batches; oracle = client line-table buffer. A text is non-trivial when it holds a multi-byte character or a line break. \
+        "(a) every text of <= n symbols over {a, é, €, 😉, LF, CRLF, U+FEFF} is a state; from each, through the real Workspace::open + Workspace::change (hook H3): a range edit for every pair of positions start <= end of the grid line 0..=lines+1 x character 0..=maxcol+2 (past end of line / text included) with every replacement of {\"\", b, é, LF, 😉CRLF}, 4 full-text changes, and for the smaller texts every two-change batch (first change: every range x {\"\", é, 😉CRLF}; second: every range of the intermediate text, replacement b) plus full-then-range and range-then-full batches; oracle = client line-table buffer. A text is non-trivial when it holds a multi-byte character or a line break. \
 (b) real oal-lsp over stdio, one server process per history: workspace {oal.toml, main.oal, m.oal}, disk contents {ok/ok, ok/error, error/ok}; a case is one sequence of d enabled notifications over open(f, text of the menu M0-M4 / N0-N3), change_full(f, menu text), change_incr(f, one of 7 / 6 single-range edits between menu texts, applied to whatever the current text is), close(f); it is run under EVERY schedule that puts a request (sync), nothing, or (idle phases) 1.1 s of silence between consecutive notifications, i.e. all histories over {open, change_full, change_incr, close, sync, idle} with d notifications and no two adjacent syncs; an event is enabled when a client may send it (open only a closed document, change/close only an open one, no position inside a surrogate pair); no deduplication by client state. After a final sync: last published diagnostics per URI (empty == never published), canonical answers (sets) to definition / references / prepareRename / rename at every identifier start of both files' client-visible texts plus position 0:0, liveness; compared with a fresh server on the same disk contents that is sent didOpen of the finally open documents. states = histories, transitions = events sent; distinct = distinct observation vectors. A difference is only reported after the history was replayed twice and the fresh server once more with identical observations".into()
     }
     fn assumptions(&self) -> Vec<String> {
